@@ -4,7 +4,7 @@ B := build
 CXX := g++
 SAN := -fsanitize=address,undefined -fno-sanitize=pointer-overflow,nonnull-attribute,null -fno-sanitize-recover=undefined -fno-omit-frame-pointer
 COMMON := -O1 -g1 -DNDEBUG -I$(REPO)/include -Wno-deprecated-declarations -MMD -MP $(SAN)
-MEM_GROUPS := a b c d e f
+MEM_GROUPS := a b c d e f g
 MEM14_OBJS := $(B)/mem14/memsim_main.o $(foreach g,$(MEM_GROUPS),$(B)/mem14/group_$(g).o)
 MEM17_OBJS := $(B)/mem17/memsim_main.o $(foreach g,$(MEM_GROUPS),$(B)/mem17/group_$(g).o)
 
